@@ -10,6 +10,8 @@ package main
 
 import (
 	"encoding/json"
+	"os"
+	"runtime/pprof"
 
 	"verif/engine/mc"
 )
@@ -17,6 +19,12 @@ import (
 func main() {
 	mc.Main("C38", "model_checking", func(c *mc.Ctx) {
 		c.Level = "model_checking"
+		if p := os.Getenv("SYSSC_CPUPROF"); p != "" { // development aid
+			if f, err := os.Create(p); err == nil {
+				_ = pprof.StartCPUProfile(f)
+				defer pprof.StopCPUProfile()
+			}
+		}
 		switch c.Prop {
 		case "C38":
 			runC38(c)
